@@ -29,6 +29,7 @@ def run(ctx):
     ctx.do(P.rule_p1, ops=[o for o in P.P1_OPS if "Transformation" in o[1]])
     ctx.do(P.rule_roles)
     ctx.do(R.rule_w1)
+    ctx.do(R.rule_rep_structure)
     ctx.do(CA.rule_c2, "ProjectiveObject", scope=ctx.scope(ENTRIES))
     ctx.do(SH.rule_sh3)
     ctx.do(u1, ENTRIES, min_functions=20)
